@@ -146,6 +146,12 @@ pub fn resign_own(w: &World, data: &mut InterpreterData, by: usize, particle: &s
 pub fn forge(w: &World, m: &Msg, by: Option<usize>, ops: &[ForgeOp]) -> Option<Msg> {
     let mut nm = m.clone();
     nm.forged = true;
+    if nm.forged_from.is_none() {
+        nm.forged_from = Some(m.data.clone());
+    }
+    for op in ops {
+        nm.forge_kinds.push(op.kind().to_string());
+    }
     let mut bytes: Vec<u8> = (*m.data).clone();
     let particle = m.particle.clone().unwrap_or_else(|| w.sc.particle_id.clone());
     for op in ops {
@@ -197,4 +203,56 @@ pub fn forge(w: &World, m: &Msg, by: Option<usize>, ops: &[ForgeOp]) -> Option<M
     let _: Option<Value> = None;
     let _ = interp::decode;
     Some(nm)
+}
+
+pub fn public_key_string(w: &World, peer: usize) -> String {
+    air_interpreter_signatures::KeyPair::new(w.keys[peer].kp.clone()).map(|k| k.public().to_string()).unwrap_or_default()
+}
+pub fn pk_string_of_peer(w: &World, peer_id: &str) -> Option<String> {
+    let i = w.ids.iter().position(|x| x == peer_id)?;
+    Some(public_key_string(w, i))
+}
+/// peer ids that have call or canon results in the trace (by stored tetraplet)
+pub fn peers_with_results(data: &InterpreterData) -> Vec<String> {
+    use air_interpreter_data::{CallResult, CanonResult, ExecutedState, ValueRef};
+    let mut v: Vec<String> = vec![];
+    for st in data.trace.iter() {
+        let p = match st {
+            ExecutedState::Call(CallResult::Executed(ValueRef::Scalar(c)))
+            | ExecutedState::Call(CallResult::Executed(ValueRef::Stream { cid: c, .. }))
+            | ExecutedState::Call(CallResult::Failed(c)) => data
+                .cid_info
+                .service_result_store
+                .get(c)
+                .and_then(|a| data.cid_info.tetraplet_store.get(&a.tetraplet_cid))
+                .map(|t| t.peer_pk.clone()),
+            ExecutedState::Canon(CanonResult::Executed(c)) => data
+                .cid_info
+                .canon_result_store
+                .get(c)
+                .and_then(|a| data.cid_info.tetraplet_store.get(&a.tetraplet))
+                .map(|t| t.peer_pk.clone()),
+            _ => None,
+        };
+        if let Some(p) = p {
+            if !v.contains(&p) {
+                v.push(p);
+            }
+        }
+    }
+    v
+}
+
+pub fn hex(b: &[u8]) -> String {
+    let mut s = String::with_capacity(b.len() * 2);
+    for x in b {
+        s.push_str(&format!("{x:02x}"));
+    }
+    s
+}
+pub fn unhex(s: &str) -> Option<Vec<u8>> {
+    if s.len() % 2 != 0 {
+        return None;
+    }
+    (0..s.len()).step_by(2).map(|i| u8::from_str_radix(&s[i..i + 2], 16).ok()).collect()
 }
